@@ -130,3 +130,26 @@ def routes(ir):
                     path = patho.get('str') if patho['k'] == 'const' else None
                     out.append({'path': path, 'mux': 'admin' if mux is None else 'service', 'handler': resolve(ho), 'in': fname, 'pos': ins.get('pos')})
     return out
+
+
+def inject_after(H, stub_name, orig_stub, point_ok, make_b):
+    """schedule exploration at event granularity: after the stubbed call `stub_name` executed by request A (and accepted by point_ok),
+    fork a schedule in which request B runs to completion at that point (B's frames are pushed on A's stack, so A resumes afterwards).
+    make_b(ex, st) -> (function name, args).  At most one injection per path."""
+    def stub(ex, st, a, ins):
+        r = orig_stub(ex, st, a, ins)
+        states = r if type(r) is list else None
+        if states is None:
+            lib.setreg(st, ins, r); states = [st]
+        out = []
+        for s in states:
+            out.append(s)
+            if s.status != 'run' or s.aux.get('injected') or any(f.tag for f in s.frames): continue
+            if not point_ok(s): continue
+            s2 = s.fork(); s2.aux['injected'] = len(s2.events)
+            fname, args = make_b(ex, s2)
+            f = Frame(ex.ir.funcs[fname], args); f.tag = 'B'; f.ret = None
+            s2.frames.append(f); ex.encoded.add(fname)
+            out.append(s2)
+        return out
+    H.stub(stub_name, stub)
